@@ -1,7 +1,325 @@
-(* C20 — lemmas about the translated helpers. *)
-From Coq Require Import ZArith List Bool Lia.
+(* C20 — lemmas about the translated helpers (Gen_array) and the hand models. *)
+From Coq Require Import ZArith List Bool Lia ZifyBool.
 Import ListNotations.
 From GV Require Import Common.PyInt gen.Gen_array C20.Model.
 Open Scope Z_scope.
+Ltac Zify.zify_post_hook ::= Z.to_euclidean_division_equations.
 
-Lemma placeholder : True. Proof. exact I. Qed.
+(* ------------------------------------------------------------------ zprod *)
+Lemma fold_mul_acc (l : list Z) (a : Z) : fold_left Z.mul l a = a * fold_left Z.mul l 1.
+Proof.
+  revert a; induction l as [|x l IH]; intros a; cbn [fold_left].
+  - lia.
+  - rewrite IH, (IH (1 * x)). lia.
+Qed.
+
+Lemma zprod_nil : zprod [] = 1.
+Proof. reflexivity. Qed.
+
+Lemma zprod_cons (x : Z) (l : list Z) : zprod (x :: l) = x * zprod l.
+Proof. unfold zprod; cbn [fold_left]. rewrite fold_mul_acc. lia. Qed.
+
+Lemma zprod_app (a b : list Z) : zprod (a ++ b) = zprod a * zprod b.
+Proof.
+  induction a as [|x a IH]; cbn [app].
+  - rewrite zprod_nil. lia.
+  - rewrite !zprod_cons, IH. lia.
+Qed.
+
+Lemma zprod_rev (l : list Z) : zprod (rev l) = zprod l.
+Proof.
+  induction l as [|x l IH]; cbn [rev]; [reflexivity|].
+  rewrite zprod_app, IH, !zprod_cons, zprod_nil. lia.
+Qed.
+
+Lemma Forall2_rev {A B} (R : A -> B -> Prop) (a : list A) (b : list B) :
+  Forall2 R a b -> Forall2 R (rev a) (rev b).
+Proof.
+  induction 1 as [|x y a b Hxy Hab IH]; cbn [rev]; [constructor|].
+  apply Forall2_app; [exact IH | constructor; [exact Hxy | constructor]].
+Qed.
+
+(* ------------------------------------------------------------------ find_chunk_shape *)
+
+(* the translated loop computes chunk_rev *)
+Lemma gen_find_chunk_shape_eq (shape : list Z) (n : Z) :
+  find_chunk_shape shape (Some n) = m_find_chunk_shape shape n.
+Proof.
+  unfold find_chunk_shape, m_find_chunk_shape.
+  cbv zeta.
+  generalize (rev shape) as l. intros l.
+  match goal with |- context [fold_left ?F l ([], n)] =>
+    assert (H : forall l bs r, fst (fold_left F l (bs, r)) = bs ++ chunk_rev l r) end.
+  { clear l. induction l as [|a l IH]; intros bs r; cbn [fold_left chunk_rev fst].
+    - symmetry; apply app_nil_r.
+    - destruct (r >? a) eqn:E; rewrite IH, <- app_assoc; reflexivity. }
+  specialize (H l [] n).
+  match goal with |- context [fold_left ?F l ([], n)] =>
+    destruct (fold_left F l ([], n)) as [bs r] eqn:E end.
+  cbn [fst] in H. rewrite H. reflexivity.
+Qed.
+
+Lemma chunk_rev_spec (l : list Z) :
+  forall r, 1 <= r -> Forall (fun s => 1 <= s) l ->
+    length (chunk_rev l r) = length l /\
+    Forall2 (fun c s => 1 <= c <= s) (chunk_rev l r) l /\
+    1 <= zprod (chunk_rev l r) <= r.
+Proof.
+  induction l as [|a l IH]; intros r Hr Hl; cbn [chunk_rev].
+  - repeat split; [constructor | rewrite zprod_nil; lia | rewrite zprod_nil; lia].
+  - inversion Hl as [|? ? Ha Hl']; subst.
+    destruct (r >? a) eqn:E.
+    + assert (Hq : 1 <= r / a) by (apply Z.div_le_lower_bound; lia).
+      destruct (IH (r / a) Hq Hl') as (L & F & P).
+      cbn [length]. rewrite zprod_cons. repeat split; [lia | constructor; [lia | exact F] | nia | ].
+      assert (a * (r / a) <= r) by (apply Z.mul_div_le; lia). nia.
+    + destruct (IH 1 ltac:(lia) Hl') as (L & F & P).
+      cbn [length]. rewrite zprod_cons. repeat split; [lia | constructor; [lia | exact F] | nia | nia].
+Qed.
+
+(* C20 / chunk_shape_bound, stated on the TRANSLATED function *)
+Lemma chunk_shape_bound (shape : list Z) (n_max : Z) :
+  1 <= n_max -> Forall (fun s => 1 <= s) shape ->
+  let c := find_chunk_shape shape (Some n_max) in
+  length c = length shape /\ Forall2 (fun ci si => 1 <= ci <= si) c shape /\ 1 <= zprod c <= n_max.
+Proof.
+  intros Hn Hs. cbv zeta. rewrite gen_find_chunk_shape_eq. unfold m_find_chunk_shape.
+  assert (Hs' : Forall (fun s => 1 <= s) (rev shape)) by (apply Forall_rev; exact Hs).
+  destruct (chunk_rev_spec (rev shape) n_max Hn Hs') as (L & F & P).
+  repeat split.
+  - rewrite rev_length, L, rev_length. reflexivity.
+  - rewrite <- (rev_involutive shape) at 2. apply Forall2_rev. exact F.
+  - rewrite zprod_rev. lia.
+  - rewrite zprod_rev. lia.
+Qed.
+
+Lemma chunk_shape_none (shape : list Z) : find_chunk_shape shape None = shape.
+Proof. reflexivity. Qed.
+
+(* ------------------------------------------------------------------ tiling of one axis *)
+Lemma count_map {A B} (p : B -> bool) (f : A -> B) (l : list A) :
+  count p (map f l) = count (fun a => p (f a)) l.
+Proof.
+  unfold count. induction l as [|a l IH]; cbn [map filter]; [reflexivity|].
+  destruct (p (f a)); cbn [length]; rewrite IH; reflexivity.
+Qed.
+
+Lemma count_ext_in {A} (p q : A -> bool) (l : list A) :
+  (forall a, In a l -> p a = q a) -> count p l = count q l.
+Proof. intros H. unfold count. now rewrite (filter_ext_in p q l H). Qed.
+
+Lemma count_app {A} (p : A -> bool) (a b : list A) : count p (a ++ b) = (count p a + count p b)%nat.
+Proof. unfold count. now rewrite filter_app, app_length. Qed.
+
+Lemma count_eqb_seq (j start len : nat) :
+  (start <= j < start + len)%nat -> count (fun k => Nat.eqb k j) (seq start len) = 1%nat.
+Proof.
+  revert start. induction len as [|len IH]; intros start H; [lia|].
+  cbn [seq]. unfold count in *. cbn [filter].
+  destruct (Nat.eqb start j) eqn:E.
+  - apply Nat.eqb_eq in E. subst. cbn [length]. f_equal.
+    rewrite (filter_ext_in _ (fun _ => false)); [clear; induction (seq (S j) len); auto|].
+    intros a Ha. apply in_seq in Ha. apply Nat.eqb_neq. lia.
+  - apply Nat.eqb_neq in E. apply IH. lia.
+Qed.
+
+Lemma range_len_spec (a b s : Z) : 0 < s -> a < b ->
+  range_len a b s = (b - a + s - 1) / s /\ 0 < range_len a b s.
+Proof.
+  intros Hs Hab. unfold range_len.
+  destruct (s <=? 0) eqn:E1; [lia|]. destruct (b <=? a) eqn:E2; [lia|].
+  split; [reflexivity|]. apply Z.div_str_pos. lia.
+Qed.
+
+Lemma tiles_count (n c x : Z) : 1 <= c -> 0 <= x < n -> count (in_tile x) (tiles n c) = 1%nat.
+Proof.
+  intros Hc Hx. unfold tiles, py_range. rewrite !count_map.
+  destruct (range_len_spec 0 n c ltac:(lia) ltac:(lia)) as [HL HLpos].
+  rewrite (count_ext_in _ (fun k => Nat.eqb k (Z.to_nat (x / c)))).
+  - apply count_eqb_seq. split; [lia|]. cbn [Nat.add].
+    apply Z2Nat.inj_lt; [apply Z.div_pos; lia | lia |]. rewrite HL.
+    apply Z.div_lt_upper_bound; [lia|].
+    assert (c * ((n - 0 + c - 1) / c) > n - 0 + c - 1 - c) by
+      (pose proof (Z.mul_succ_div_gt (n - 0 + c - 1) c ltac:(lia)); lia). lia.
+  - intros k Hk. apply in_seq in Hk. unfold in_tile. cbn [fst snd].
+    assert (Hkc : 0 + Z.of_nat k * c = Z.of_nat k * c) by lia. rewrite Hkc.
+    assert (Hk2 : Z.of_nat k < range_len 0 n c) by lia. rewrite HL in Hk2.
+    assert (Hkn : Z.of_nat k * c < n).
+    { assert (Z.of_nat k <= (n - 0 + c - 1) / c - 1) by lia.
+      assert (c * ((n - 0 + c - 1) / c) <= n - 0 + c - 1) by (apply Z.mul_div_le; lia). nia. }
+    destruct (Nat.eqb k (Z.to_nat (x / c))) eqn:E.
+    + apply Nat.eqb_eq in E. subst k. rewrite Z2Nat.id in * by (apply Z.div_pos; lia).
+      assert (c * (x / c) <= x) by (apply Z.mul_div_le; lia).
+      assert (x < c * (x / c) + c) by (pose proof (Z.mul_succ_div_gt x c ltac:(lia)); lia).
+      lia.
+    + apply Nat.eqb_neq in E.
+      assert (Z.of_nat k <> x / c) by (intros Heq; apply E; rewrite <- Heq, Nat2Z.id; reflexivity).
+      assert (c * (x / c) <= x) by (apply Z.mul_div_le; lia).
+      assert (x < c * (x / c) + c) by (pose proof (Z.mul_succ_div_gt x c ltac:(lia)); lia).
+      destruct (Z.of_nat k * c <=? x) eqn:E1; destruct (x <? Z.min (Z.of_nat k * c + c) n) eqn:E2; cbn [andb]; try reflexivity.
+      exfalso. nia.
+Qed.
+
+Lemma tiles_wf (n c : Z) : 1 <= c -> 0 <= n ->
+  Forall (fun t => 0 <= fst t /\ fst t < snd t /\ snd t <= n /\ snd t - fst t <= c) (tiles n c).
+Proof.
+  intros Hc Hn. unfold tiles, py_range. apply Forall_forall. intros t Ht.
+  apply in_map_iff in Ht as (b & <- & Hb). apply in_map_iff in Hb as (k & <- & Hk).
+  apply in_seq in Hk. cbn [fst snd].
+  destruct (Z_lt_le_dec 0 n) as [Hpos|Hz].
+  - destruct (range_len_spec 0 n c ltac:(lia) ltac:(lia)) as [HL _].
+    assert (Hk2 : Z.of_nat k < range_len 0 n c) by lia. rewrite HL in Hk2.
+    assert (c * ((n - 0 + c - 1) / c) <= n - 0 + c - 1) by (apply Z.mul_div_le; lia).
+    assert (Z.of_nat k * c < n) by nia. lia.
+  - exfalso. unfold range_len in Hk. destruct (c <=? 0); destruct (n <=? 0) eqn:E; cbn in Hk; lia.
+Qed.
+
+Lemma tiles_zero (c : Z) : tiles 0 c = [].
+Proof. unfold tiles, py_range, range_len. destruct (c <=? 0); reflexivity. Qed.
+
+(* ------------------------------------------------------------------ product of tilings *)
+Lemma count_cons_map (x : Z) (idx : list Z) (rest : list (Z * Z)) (T : list (Z * Z)) :
+  count (in_chunk (x :: idx)) (map (fun t => t :: rest) T) =
+  if in_chunk idx rest then count (in_tile x) T else 0%nat.
+Proof.
+  rewrite count_map. cbn [in_chunk].
+  destruct (in_chunk idx rest).
+  - apply count_ext_in. intros; now rewrite andb_true_r.
+  - unfold count. rewrite (filter_ext_in _ (fun _ => false)); [induction T; auto|].
+    intros; now rewrite andb_false_r.
+Qed.
+
+Lemma count_product (x : Z) (idx : list Z) (T : list (Z * Z)) (L : list (list (Z * Z))) :
+  count (in_chunk (x :: idx)) (flat_map (fun rest => map (fun t => t :: rest) T) L) =
+  (count (in_tile x) T * count (in_chunk idx) L)%nat.
+Proof.
+  induction L as [|rest L IH]; cbn [flat_map].
+  - unfold count; cbn. lia.
+  - rewrite count_app, IH, count_cons_map.
+    assert (Hc : count (in_chunk idx) (rest :: L) =
+                 ((if in_chunk idx rest then 1 else 0) + count (in_chunk idx) L)%nat).
+    { unfold count; cbn [filter]. destruct (in_chunk idx rest); reflexivity. }
+    rewrite Hc. destruct (in_chunk idx rest); nia.
+Qed.
+
+(* every index of the shape box lies in exactly one chunk of m_chunks *)
+Lemma m_chunks_partition (shape cs idx : list Z) :
+  Forall (fun c => 1 <= c) cs -> length cs = length shape ->
+  Forall2 (fun x n => 0 <= x < n) idx shape ->
+  count (in_chunk idx) (m_chunks shape cs) = 1%nat.
+Proof.
+  intros Hc Hl Hidx. revert cs Hc Hl.
+  induction Hidx as [|x n idx shape Hx Hrest IH]; intros cs Hc Hl.
+  - destruct cs; [reflexivity | discriminate].
+  - destruct cs as [|c cs]; [discriminate|]. inversion Hc; subst.
+    cbn [m_chunks]. rewrite count_product, tiles_count, IH by (auto; lia). reflexivity.
+Qed.
+
+(* every chunk is a non-empty box inside the shape box with at most prod(cs) elements *)
+Lemma m_chunks_wf (shape cs : list Z) :
+  Forall (fun c => 1 <= c) cs -> Forall (fun n => 0 <= n) shape -> length cs = length shape ->
+  Forall (fun ch => Forall2 (fun t n => 0 <= fst t /\ fst t < snd t /\ snd t <= n) ch shape /\
+                    1 <= chunk_size ch <= zprod cs) (m_chunks shape cs).
+Proof.
+  intros Hc. revert shape. induction Hc as [|c cs Hc1 Hc IH]; intros shape Hs Hl.
+  - destruct shape; [|discriminate]. cbn. constructor; [|constructor]. split; [constructor|].
+    unfold chunk_size. cbn. lia.
+  - destruct shape as [|n shape]; [discriminate|]. inversion Hs; subst. cbn [m_chunks].
+    apply Forall_forall. intros ch Hch. apply in_flat_map in Hch as (rest & Hrest & Hch).
+    apply in_map_iff in Hch as (t & <- & Ht).
+    specialize (IH shape ltac:(assumption) ltac:(cbn in Hl; lia)).
+    rewrite Forall_forall in IH. destruct (IH rest Hrest) as [Hbox Hsz].
+    pose proof (tiles_wf n c Hc1 ltac:(assumption)) as Ht'. rewrite Forall_forall in Ht'.
+    destruct (Ht' t Ht) as (Ht0 & Ht1 & Ht2 & Ht3).
+    split; [constructor; [lia | exact Hbox]|].
+    unfold chunk_size in *. cbn [map]. rewrite !zprod_cons. nia.
+Qed.
+
+Lemma m_chunks_empty (shape cs : list Z) :
+  length cs = length shape -> In 0 shape -> m_chunks shape cs = [].
+Proof.
+  revert cs. induction shape as [|n shape IH]; intros cs Hl Hin; [destruct Hin|].
+  destruct cs as [|c cs]; [discriminate|]. cbn [m_chunks].
+  destruct Hin as [->|Hin].
+  - rewrite tiles_zero. induction (m_chunks shape cs); auto.
+  - rewrite IH; [reflexivity | cbn in Hl; lia | exact Hin].
+Qed.
+
+(* ------------------------------------------------------------------ categorical arrays *)
+From Coq Require Import Sorting.Sorted.
+
+Lemma insert_uniq_in (x y : Z) (l : list Z) : In y (insert_uniq x l) <-> y = x \/ In y l.
+Proof.
+  induction l as [|z l IH]; cbn [insert_uniq].
+  - cbn. intuition.
+  - destruct (x <? z) eqn:E1; [cbn; intuition|].
+    destruct (x =? z) eqn:E2.
+    + apply Z.eqb_eq in E2. subst. cbn. intuition.
+    + cbn [In]. rewrite IH. intuition.
+Qed.
+
+Lemma insert_uniq_sorted (x : Z) (l : list Z) :
+  StronglySorted Z.lt l -> StronglySorted Z.lt (insert_uniq x l).
+Proof.
+  induction 1 as [|z l Hs IH Hall]; cbn [insert_uniq].
+  - constructor; constructor.
+  - destruct (x <? z) eqn:E1.
+    + constructor; [constructor; assumption|]. constructor; [lia|].
+      rewrite Forall_forall in *. intros y Hy. specialize (Hall y Hy). lia.
+    + destruct (x =? z) eqn:E2; [constructor; assumption|].
+      constructor; [exact IH|]. rewrite Forall_forall in *. intros y Hy.
+      apply insert_uniq_in in Hy as [->|Hy]; [lia | auto].
+Qed.
+
+Lemma categories_sorted (vals : list Z) : StronglySorted Z.lt (categories vals).
+Proof.
+  unfold categories. induction vals as [|v vals IH]; cbn [fold_right]; [constructor|].
+  apply insert_uniq_sorted, IH.
+Qed.
+
+Lemma categories_in (vals : list Z) (y : Z) : In y (categories vals) <-> In y vals.
+Proof.
+  unfold categories. induction vals as [|v vals IH]; cbn [fold_right]; [reflexivity|].
+  rewrite insert_uniq_in, IH. cbn. intuition.
+Qed.
+
+Lemma index_of_spec (v : Z) (l : list Z) : In v l ->
+  0 <= index_of v l < zlen l /\ znth l (index_of v l) = v.
+Proof.
+  unfold zlen. induction l as [|y l IH]; intros Hin; [destruct Hin|].
+  cbn [index_of length]. destruct (v =? y) eqn:E.
+  - apply Z.eqb_eq in E. subst. split; [lia | reflexivity].
+  - apply Z.eqb_neq in E. destruct Hin as [->|Hin]; [congruence|].
+    destruct (IH Hin) as [Hr Hn].
+    destruct (index_of v l <? 0) eqn:E2; [lia|]. split; [lia|].
+    unfold znth in *. destruct (index_of v l <? 0) eqn:E3; [lia|].
+    destruct (1 + index_of v l <? 0) eqn:E4; [lia|].
+    replace (Z.to_nat (1 + index_of v l)) with (S (Z.to_nat (index_of v l))) by lia.
+    exact Hn.
+Qed.
+
+(* categories are sorted and unique, every value is a category, and categories[codes] == values *)
+Lemma categorical_spec (vals : list Z) :
+  StronglySorted Z.lt (categories vals) /\
+  (forall y, In y (categories vals) <-> In y vals) /\
+  Forall (fun c => 0 <= c < zlen (categories vals)) (codes vals) /\
+  map (znth (categories vals)) (codes vals) = vals.
+Proof.
+  split; [apply categories_sorted|]. split; [apply categories_in|].
+  unfold codes. split.
+  - apply Forall_forall. intros c Hc. apply in_map_iff in Hc as (v & <- & Hv).
+    apply index_of_spec, categories_in, Hv.
+  - rewrite map_map. rewrite <- (map_id vals) at 2. apply map_ext_in. intros v Hv.
+    apply index_of_spec, categories_in, Hv.
+Qed.
+
+(* ------------------------------------------------------------------ slice.indices bounds *)
+Lemma slice_indices_bounds (s : slice) (n b e k : Z) :
+  0 <= n -> slice_indices s n = Some (b, e, k) -> 0 < k -> 0 <= b <= n /\ 0 <= e <= n.
+Proof.
+  intros Hn H Hk. unfold slice_indices in H.
+  destruct (sl_step s) as [st|]; destruct (sl_start s) as [a|]; destruct (sl_stop s) as [c|];
+    repeat match type of H with
+           | context [if ?t then _ else _] => destruct t eqn:?
+           end; inversion H; subst; lia.
+Qed.
